@@ -344,5 +344,62 @@ class SeedPart(Part):
         return res
 
 
+class HistoryPart(Part):
+    name = "line_histories_one_anonymizer"
+    desc = "BFS over line histories on one anonymizer (depth 3): every line answers as on a fresh anonymizer"
+
+    def __init__(self, tier, seed):
+        self.tier, self.seed = tier, seed
+
+    def cases(self):
+        return [{"words": w, "user_res": u} for w in (["ply"], ["sea", "seattle"], ["sys", "SysOp", "r.sys"])
+                for u in (None, USER_RESERVED)]
+
+    def run(self, case):
+        from netconan.anonymize_files import FileAnonymizer
+
+        res = Res()
+        words, user_res = case["words"], case["user_res"]
+        w0 = words[0]
+        alpha = ["hostname %s-core" % w0, "  hostname   %s-core  " % w0, "\thostname %s-core\r" % w0.upper(), "apply %s apply;" % w0,
+                 "%s %s%s" % (w0, w0, w0), "description link to %s core" % words[-1], "interface Ethernet1",
+                 "%s" % (user_res or "apply"), "x%sx %s" % (words[-1], (user_res or "APPLY").lower())]
+        depth = 3 if self.tier == "quick" else 4
+        hists = [h for d in range(1, depth + 1) for h in itertools.product(range(len(alpha)), repeat=d)]
+        if "hist" in case:
+            hists = [tuple(case["hist"])]
+        fresh = {}
+        try:
+            for i, ln in enumerate(alpha):
+                fresh[i] = run_lines(words, user_res, "saltForTest", [ln])[0]
+            for h in hists:
+                with seams.capture_logs():
+                    fa = FileAnonymizer(anon_pwd=False, anon_ip=False, salt="saltForTest", sensitive_words=list(words),
+                                        reserved_words=[user_res] if user_res else None)
+                    outs = []
+                    for i in h:
+                        buf = io.StringIO()
+                        fa.anonymize_io(io.StringIO(alpha[i] + "\n", newline=""), buf)
+                        outs.append(buf.getvalue()[:-1])
+                res.evals += 1
+                res.transitions += len(h)
+                res.states += 1
+                res.nt((tuple(words), user_res, h))
+                res.out(tuple(outs))
+                want = [fresh[i] for i in h]
+                if outs != want:
+                    k = [j for j in range(len(h)) if outs[j] != want[j]][0]
+                    res.violation("line-output-depends-on-earlier-lines",
+                                  "words %r: after lines %r the line %r gives %r, on a fresh anonymizer %r" % (
+                                      words, [alpha[i] for i in h[:k]], alpha[h[k]], outs[k], want[k]),
+                                  dict(case, hist=list(h)))
+                    break
+        finally:
+            seams.restore_globals()
+        if "hist" not in case:
+            res.samples.append({"words": words, "alphabet": alpha[:4], "histories": len(hists)})
+        return res
+
+
 def parts(tier, seed):
-    return [ListsPart(tier, seed), SecretsPart(tier, seed), SeedPart(tier, seed)]
+    return [ListsPart(tier, seed), SecretsPart(tier, seed), SeedPart(tier, seed), HistoryPart(tier, seed)]
